@@ -91,7 +91,7 @@ CHECKS.update({
         "quick": T(20000, 45), "thorough": T(500000, 600),
         "rule": "one run = generated simulated process state (independent real/effective uid/gid, name tables with gaps and with entries of 0.3-70 KB - long member lists, long GECOS fields: the lookup functions answer ERANGE to a buffer that is too small -, working directories up to 6000 bytes, session, ancestor chain, tty none/closed/present with owner, login fallbacks, environment incl. TZ, cwd, host, instant) + two execs whose formats list every data source named in the statement inside <name=...> delimiters; "
                 "each text compared with the value derived from the world; distinct = vector of world classes",
-        "probes": ["all_ids_distinct", "id_without_name", "no_tty", "ebadf", "deleted_cwd", "tz_non_utc", "secure_exec_mode", "child_of_init"],
+        "probes": ["all_ids_distinct", "id_without_name", "no_tty", "ebadf", "deleted_cwd", "tz_non_utc", "secure_exec_mode", "child_of_init", "env_all_at_limit"],
         "assumptions": ["the kernel is a stub: this decides that each data source asks the right question and renders the answer, not that Linux answers correctly"],
     },
     "C14": {
